@@ -114,6 +114,16 @@ def add_glue_as_needed(*, _sys_modules_len_cache: list[int] = [0]) -> None:
                 # prefer its own glue) and rescan next time.
                 visited_all = False
                 continue
+            try:
+                initializing = module.__spec__._initializing
+            except Exception:
+                initializing = False
+            if initializing:
+                # Still being imported (we were called from its body, or from
+                # another thread): it may not have defined its own glue yet.
+                # Look at it again next time.
+                visited_all = False
+                continue
             builtin_fn = builtin_glue_pending.pop(module_name, None)
             try:
                 module_fn = module.__dict__.pop("_stackscope_install_glue_", None)
